@@ -12,5 +12,6 @@ INVARIANT LNotOpen
 INVARIANT LRelease
 INVARIANT LTruthful
 INVARIANT LWith
+INVARIANT LSync
 CHECK_DEADLOCK FALSE
 POSTCONDITION ExportReader
